@@ -436,7 +436,10 @@ func (s rfTaskStore) Load(id string) (*kapacitor.Task, error) {
 
 // rfRoutes is the HTTPD service of the replay service: it keeps the routes so that the harness can
 // call the handlers the way the HTTP server would.
-type rfRoutes struct{ routes []httpd.Route }
+type rfRoutes struct {
+	routes   []httpd.Route
+	extraMiB int // MiB of generated data the replay has to read (lengthens the hang bound)
+}
 
 func (h *rfRoutes) AddRoutes(r []httpd.Route) error {
 	h.routes = append(h.routes, r...)
@@ -486,7 +489,9 @@ func (h *rfRoutes) do(method, pattern, path string, body any) (code int, out []b
 
 // await polls GET <pattern>/<id> until the service no longer answers 202 Accepted (running).
 func (h *rfRoutes) await(pattern, id string, into any) (bool, error) {
-	deadline := time.Now().Add(rfBound)
+	// rfBound for work that takes milliseconds, plus 5 s per MiB the reader has to get through (a
+	// generated 64 MiB line takes seconds on an idle machine and a multiple of that on a loaded one)
+	deadline := time.Now().Add(rfBound + time.Duration(h.extraMiB)*5*time.Second)
 	for n := 0; ; n++ {
 		code, body, err := h.do("GET", pattern+"/", pattern+"/"+id, nil)
 		if err != nil {
@@ -1134,6 +1139,7 @@ func replayFileCore(c RFCase, cc *kit.Case) (string, string) {
 		cc.Label("outcome=refused")
 	} else {
 		var rep kclient.Replay
+		routes.extraMiB = c.Damage.Len >> 20
 		done, err = routes.await("/replays", rep1, &rep)
 		if hp, ok := err.(*rfHandlerPanic); ok {
 			return rfFail("replayfile/handler-panic/get-replay", "GET /replays/<id> panicked: %v\n%s", hp, desc)
@@ -1230,7 +1236,7 @@ var assumptionsReplayFile = []string{
 	"the replay service is assembled as server.appendReplayService does (StorageService = Bolt store, TaskStore, HTTPDService, InfluxDBService, TaskMaster, TaskMasterLookup) and driven through the handlers of its HTTP routes (POST /recordings/batch, POST /recordings/query, GET /recordings/<id>, POST /replays, GET /replays/<id>) with the option structs of client/v1; 202 Accepted = still running (copied from unit File of C18)",
 	"InfluxDB is a fake that answers the k-th query naming measurement src<i> with one series of Rows rows (time, a 48-character string, a float; values from a splitmix64 sequence so that they do not compress) for k < Batches of source i and with an empty response otherwise; the task's query nodes use .period(1h).every(1h) and the recorded range is [start, start + max(Batches)*1h]",
 	"the recording file is <save dir>/<recording id>.brpl (zip, one entry per query node) or .srpl (gzip): the harness reads, damages and restores it there between the requests, as an operator or a failing disk would; content-level damage re-packs the archive / the gzip stream with the writers the service uses (zip deflate, gzip)",
-	"a replay of a damaged file may end finished (the damage left a valid recording, or the reader took a read error for the end of the data) or failed - both satisfy 'an error at most'; a POST /replays answered with another status than 201 is an error as well; only a process death, a panic out of a handler, a replay still running after 30 s (fast clock: nothing waits for time) and an unknown final status are violations",
+	"a replay of a damaged file may end finished (the damage left a valid recording, or the reader took a read error for the end of the data) or failed - both satisfy 'an error at most'; a POST /replays answered with another status than 201 is an error as well; only a process death, a panic out of a handler, a replay still running after 30 s plus 5 s per MiB of a generated huge line (fast clock: nothing waits for time) and an unknown final status are violations",
 	"the follow-up replay runs the same task again (1 in 4 cases: a second task with the same query nodes and its own |log() sinks); it must finish without error and deliver exactly Batches batches and Batches*Rows points per source (stream: Rows points), counted at the |log() sinks from the moment the damaged replay has reached its final state (a finished or failed replay has closed its task master: it delivers nothing any more) - counts only, the content is the business of C18",
 	"30 s bounds are hang detection only (signatures replayfile/hang/..., replayfile/after/hang); the polling interval is not a correctness signal",
 	"the finding crash/.../send on closed channel (a damaged entry of a batch archive while batches are being collected) is repaired in /repo (8e04ce9): its input class is generated; VERIF_C05_REPLAYFILE_EXCLUDE=1 restricts such damage to position 0 of the damaged entry with every other source empty again (for an older tree)",
